@@ -70,6 +70,62 @@ class Stub:
         return "<Stub %s>" % self._label
 
 
+
+class SMember:
+    """A symbolic member of an enumeration class of the real code whose members are plain
+    objects compared by identity (cr.cube.enums.DIMENSION_TYPE): an integer index into the
+    sorted list of member names, constrained to a declared subset.  `==` / `!=` against a
+    real member give an SBool (decided or forked by the path condition); membership in the
+    enumeration's frozenset constants goes through `MemberSet`; hashing and the name are out
+    of reach (a dict keyed by the type, or a comparison of names, cannot be followed)."""
+
+    def __init__(self, idx, names):
+        self._idx = idx  # z3 Int
+        self._names = names
+
+    def _index_of(self, other):
+        n = getattr(other, "_name", None)
+        return self._names.index(n) if n in self._names else None
+
+    def __eq__(self, other):
+        if isinstance(other, SMember):
+            return sbool(self._idx == other._idx)
+        k = self._index_of(other)
+        return False if k is None else sbool(self._idx == k)
+
+    def __ne__(self, other):
+        r = self.__eq__(other)
+        return (not r) if isinstance(r, bool) else ~r
+
+    def __hash__(self):
+        raise OutOfReach("hash of a symbolic enumeration member")
+
+    @property
+    def name(self):
+        raise OutOfReach("name of a symbolic enumeration member")
+
+    _name = name
+
+    def __repr__(self):
+        return "<SMember %s>" % (self._idx,)
+
+
+class MemberSet(frozenset):
+    """frozenset constant of the enumeration, also answering membership of an SMember"""
+
+    def __contains__(self, x):
+        if isinstance(x, SMember):
+            out = False
+            for m in frozenset.__iter__(self):
+                out = (x == m) | out
+            return out
+        return frozenset.__contains__(self, x)
+
+
+def member_names(enum_cls):
+    return sorted({v._name for k, v in vars(enum_cls).items() if hasattr(v, "_name") and not k.startswith("_")})
+
+
 # ---------------------------------------------------------------------------------------
 # backends
 
@@ -112,6 +168,18 @@ class SymBackend(BackendBase):
 
     def enum(self, path):
         return self.repo.get(path)
+
+    def member(self, name, path, among):
+        """symbolic member of the enumeration at `path`, one of the names in `among`"""
+        E = self.repo.get(path)
+        names = member_names(E)
+        for k, v in list(vars(E).items()):
+            if isinstance(v, frozenset) and not isinstance(v, MemberSet):
+                setattr(E, k, MemberSet(v))
+        z = z3.Int(name)
+        self.c.assume(z3.Or(*[z == names.index(n) for n in among]))
+        self.ingredients[name] = ("int", z)
+        return SMember(z, names)
 
     # -- ingredients
     def size(self, name, lo=0):
@@ -627,6 +695,10 @@ class ConcreteBackend(BackendBase):
 
     enum = cls
 
+    def member(self, name, path, among):
+        E = self.cls(path)
+        return getattr(E, member_names(E)[int(self.values[name])])
+
     def size(self, name, lo=0):
         return int(self.sizes[name])
 
@@ -838,6 +910,11 @@ class RandomConcreteBackend(ConcreteBackend):
         if v < lo:
             raise SkipInput()
         return v
+
+    def member(self, name, path, among):
+        E = self.cls(path)
+        self.values[name] = member_names(E).index(self.rnd.choice(sorted(among)))
+        return ConcreteBackend.member(self, name, path, among)
 
     def flag(self, name):
         self.values[name] = self.rnd.random() < 0.5
